@@ -34,7 +34,7 @@ ASSUMPTIONS = ["reference = generative emission model (pair probability from g2 
 
 def pick_source(rng):
     b = float(rng.choice([1.0, 1.0, 0.0, 1e-9, 0.004, 0.02, rng.random(), rng.random()]))
-    p = float(rng.choice([1.0, 1.0, 0.5 + 1e-6, 0.999999, rng.uniform(0.5001, 1), rng.uniform(0.8, 1)]))
+    p = float(rng.choice([1.0, 1.0, 0.5 + 1e-6, 0.999999, 1 - 1e-7, 1 - 1e-8, 1 - 3e-9, rng.uniform(0.5001, 1), rng.uniform(0.8, 1)]))
     i = float(rng.choice([1.0, 1.0, 0.0, rng.random(), rng.random()]))
     t = float(rng.choice([0, 0, 0, 1e-6, 1e-3, 0.05]))
     return b, p, i, t
@@ -57,7 +57,7 @@ def classical(u, n_real, occ):
 def derived(ctx, lw, rng):
     emu, State = lw.emulator, lw.State
     # g2 of the emitted photon-number statistics = 1 - purity
-    purity = float(rng.choice([rng.uniform(0.5001, 1), 0.75, 0.999, 0.51]))
+    purity = float(rng.choice([rng.uniform(0.5001, 1), 0.75, 0.999, 0.51, 1 - 1e-6, 1 - 1e-7, 1 - 1e-8]))
     src = emu.Source(purity=purity)
     st = src._build_statistics(State([1]))
     pn = {}
@@ -66,7 +66,7 @@ def derived(ctx, lw, rng):
     p1, p2 = pn.get(1, 0.0), pn.get(2, 0.0)
     g2 = 2 * p2 / (p1 + 2 * p2) ** 2
     ctx.bucket("g2_checked")
-    if abs(g2 - (1 - purity)) > 1e-9 or set(pn) - {1, 2}:
+    if abs(g2 - (1 - purity)) > 1e-9 * max(1e-3, min(1.0, (1 - purity) * 1e3)) + 1e-15 or set(pn) - {1, 2}:
         ctx.violation(f"emitted photon-number statistics {pn} give g2 = {g2:.9f}, 1 - purity = {1 - purity:.9f}",
                       case={"purity": purity}, mechanism="g2", monitor="derived: g2")
     # HOM visibility = indistinguishability
